@@ -1,0 +1,96 @@
+//go:build verif
+
+// Copyright (c) 2021 6 River Systems
+//
+// Permission is hereby granted, free of charge, to any person obtaining a copy of
+// this software and associated documentation files (the "Software"), to deal in
+// the Software without restriction, including without limitation the rights to
+// use, copy, modify, merge, publish, distribute, sublicense, and/or sell copies of
+// the Software, and to permit persons to whom the Software is furnished to do so,
+// subject to the following conditions:
+//
+// The above copyright notice and this permission notice shall be included in all
+// copies or substantial portions of the Software.
+//
+// THE SOFTWARE IS PROVIDED "AS IS", WITHOUT WARRANTY OF ANY KIND, EXPRESS OR
+// IMPLIED, INCLUDING BUT NOT LIMITED TO THE WARRANTIES OF MERCHANTABILITY, FITNESS
+// FOR A PARTICULAR PURPOSE AND NONINFRINGEMENT. IN NO EVENT SHALL THE AUTHORS OR
+// COPYRIGHT HOLDERS BE LIABLE FOR ANY CLAIM, DAMAGES OR OTHER LIABILITY, WHETHER
+// IN AN ACTION OF CONTRACT, TORT OR OTHERWISE, ARISING FROM, OUT OF OR IN
+// CONNECTION WITH THE SOFTWARE OR THE USE OR OTHER DEALINGS IN THE SOFTWARE.
+
+package services
+
+// This file only exists with `-tags verif`. It exports, without copying any
+// behaviour, the unexported pieces an external runtime-verification harness
+// needs to drive in-process: the real gRPC handler objects and the real
+// background services.
+
+import (
+	"context"
+	"fmt"
+
+	"go.6river.tech/mmmbbb/actions"
+	"go.6river.tech/mmmbbb/ent"
+	"go.6river.tech/mmmbbb/grpc/pubsubpb"
+)
+
+// VerifServers returns the real Publisher/Subscriber handler objects, exactly
+// as InitializeGrpcServers registers them.
+func VerifServers(client *ent.Client) (pubsubpb.PublisherServer, pubsubpb.SubscriberServer) {
+	return &publisherServer{client: client}, &subscriberServer{client: client}
+}
+
+// VerifServiceNames lists the names of the registered background services.
+func VerifServiceNames() []string {
+	names := make([]string, len(defaultServices))
+	for i, s := range defaultServices {
+		names[i] = s.Name()
+	}
+	return names
+}
+
+// VerifPruneRunOnce runs one iteration of the named prune service, through the
+// service's own runOnce (transaction handling included), with the given
+// parameters.
+func VerifPruneRunOnce(
+	ctx context.Context,
+	client *ent.Client,
+	name string,
+	params actions.PruneCommonParams,
+) (int, error) {
+	for _, s := range defaultServices {
+		ps, ok := s.(*pruneService)
+		if !ok || ps.name != name {
+			continue
+		}
+		// work on a private copy so the registered singleton is not mutated
+		one := pruneServiceFor(ps.name, ps.actionbuilder)
+		one.settings.PruneCommonParams = params
+		if err := one.Initialize(ctx, client); err != nil {
+			return 0, err
+		}
+		return one.runOnce(ctx)
+	}
+	return 0, fmt.Errorf("no prune service named %q", name)
+}
+
+// VerifNewServices returns fresh instances of the background services (prune
+// jobs, dead-letter sweep, http pusher) with the given settings, so that their
+// real Start loops can be run by a harness.
+func VerifNewServices(prune PruneCommonSettings, dl DeadLetterSettings) []Service {
+	var ret []Service
+	for _, s := range defaultServices {
+		switch ss := s.(type) {
+		case *pruneService:
+			one := pruneServiceFor(ss.name, ss.actionbuilder)
+			one.settings = prune
+			ret = append(ret, one)
+		case *deadLetter:
+			ret = append(ret, &deadLetter{settings: dl})
+		case *httpPusher:
+			ret = append(ret, &httpPusher{})
+		}
+	}
+	return ret
+}
